@@ -76,6 +76,17 @@ func Gen(cfg Config) *rapid.Generator[*Scenario] {
 	return rapid.Custom(func(t *rapid.T) *Scenario { return gen(t, cfg) })
 }
 
+// GenFromSeed draws one seed and expands it with Gen(cfg).Example(seed): the
+// same generator and distribution, but the test's own recorded draw sequence
+// stays short. For real-size scenarios (millions of draws), where rapid's
+// shrinker would spend minutes pruning the draw log before its first attempt.
+func GenFromSeed(cfg Config) *rapid.Generator[*Scenario] {
+	return rapid.Custom(func(t *rapid.T) *Scenario {
+		seed := rapid.IntRange(1, 1<<40).Draw(t, "scenario seed")
+		return Gen(cfg).Example(seed)
+	})
+}
+
 func gen(t *rapid.T, cfg Config) *Scenario {
 	s := &Scenario{}
 	n := rapid.IntRange(cfg.MinConversations, cfg.MaxConversations).Draw(t, "conversations")
